@@ -57,12 +57,18 @@ def ctype_of(n):
 def extract(path):
     ast = ast_of(path)
     sites, fields, arrays = [], [], []
+    params, calls = {}, []      # function -> parameter names; (caller, callee, argument nodes)
 
     def visit(n, func):
         k = n.get("kind")
+        if k == "FunctionDecl" and "name" in n:
+            ps = [c.get("name") for c in n.get("inner", []) or [] if c.get("kind") == "ParmVarDecl"]
+            if ps or n["name"] not in params: params[n["name"]] = ps
         if k == "CallExpr":
             inner = n.get("inner", [])
             callee = strip_casts(inner[0]) if inner else {}
+            if callee.get("kind") == "DeclRefExpr" and callee.get("referencedDecl", {}).get("name"):
+                calls.append((func, callee["referencedDecl"]["name"], inner[1:]))
             # (*reporter->assert_true)(...)  : UnaryOperator(*) -> MemberExpr(assert_true)
             c = callee
             while c.get("kind") in ("UnaryOperator", "ParenExpr", "ImplicitCastExpr") and c.get("inner"):
@@ -91,7 +97,18 @@ def extract(path):
             if lit is not None and ("format" in n.get("name", "") or "message" in n.get("name", "") or n.get("name") in ("at_offset", "expected_content")):
                 arrays.append({"name": n["name"], "lit": lit})
     walk(ast, visit)
-    return sites, fields, arrays
+    # a format that is a parameter of a helper function: the literals its callers pass are the formats (one level)
+    resolved = []
+    for st in sites:
+        if "var" in st and st["var"] in (params.get(st["func"]) or []):
+            idx = params[st["func"]].index(st["var"])
+            lits = [literal_of(args[idx]) for caller, callee, args in calls if callee == st["func"] and idx < len(args)]
+            if lits and all(l is not None for l in lits):
+                for l in lits:
+                    resolved.append({"func": st["func"], "file": st["file"], "fmt": l, "args": st["args"]})
+                continue
+        resolved.append(st)
+    return resolved, fields, arrays
 
 
 def expr_text(n):
